@@ -180,7 +180,7 @@ func fullProfile() *Profile {
 	return &Profile{Upsert: 12, Delete: 6, Compact: 3, LeaveLocal: 1, MaxLeaves: 1,
 		Gossip: 26, Deliver: 32, Drop: 5, Dup: 3, Join: 2, LeaveTo: 3,
 		Tick: 7, Liveness: 7, SweepEarly: 1, SweepDue: 3, SweepLate: 1, SweepUpto: 1,
-		Crash: 1, MaxCrashes: 1, Start: 1}
+		Crash: 1, MaxCrashes: 1, Start: 1, Forge: 1}
 }
 
 func c11Monitors(s *Sim) {
